@@ -2089,6 +2089,20 @@ def C18(c):
             for a in ("greedy", "kk", "multifit", "roundrobin"):
                 grp.append({"alg": a, "vals": list(vals), "p": ({"k": k, "it": 10} if a == "multifit" else {"k": k})})
             agree.append((o, grp))
+    # the difference-minimising searches against each other with 4 bins (5 for 11 items) on 11-13 small, often tied values: an optimum that
+    # beats the Karmarkar-Karp start by exactly 1, three equal bins, ... (the thin slices in which one of them stops too early)
+    for _ in range(c.n(70, 500)):
+        n = rng.randint(11, 13)
+        k = 5 if (n == 11 and rng.random() < 0.25) else 4
+        hi = rng.choice([8, 12, 25, 60, 250])
+        vals = [rng.randint(1, hi) for _ in range(n)]
+        grp = []
+        for a in ("cg", "ckk", "snp", "rnp"):
+            p = {"k": k}
+            if a == "cg":
+                p.update(lb=1, fast=1, h3=0, seen=1, obj="diff", cut=None)
+            grp.append({"alg": a, "vals": list(vals), "p": p})
+        agree.append(("diff", grp))
     flat = [(g, "list", PT, list(g["vals"])) for o, grp in agree for g in grp]
     res = iter(impl_map(flat, serial_below=2))
     for o, grp in agree:
@@ -2176,6 +2190,9 @@ def C15(c):
         vals, b1, b2 = gen.hard_bc_pair(rng)
         for b in (b1, b2):
             pool_cases.append({"alg": "bin_completion", "vals": list(vals), "p": {"B": b}, "force_fmt": rng.choice(["list", "array"])})
+    for _ in range(c.n(60, 240)):     # bin completion on many different inputs on which the branching search runs (state surviving one search
+        B, vals = gen.hard_bc_case(rng)   # - a default argument, a module-level list - changes what a later search finds)
+        pool_cases.append({"alg": "bin_completion", "vals": [v for v in vals if v >= 1] or [1], "p": {"B": B}, "force_fmt": rng.choice(["list", "array"])})
     pool_cases += C.random_pack_cases(rng, C.PACKERS + ["bin_completion"], c.n(6, 30), oversize=1.0)          # failing calls
     pool_cases += [{"alg": "cbldm", "vals": gen.rand_vals(rng, 4), "p": {"k": 3, "d": None, "cut": None}} for _ in range(c.n(4, 20))]   # ValueError
     pool_cases += [{"alg": "rnp", "vals": gen.rand_vals(rng, 7, "small"), "p": {"k": 6}} for _ in range(c.n(3, 10))]                  # KF1 calls interleaved
